@@ -10,6 +10,7 @@ no-op ...), so deleting commands keeps a trace executable — the basis of repla
 and delta debugging.
 """
 import functools
+from collections import defaultdict
 
 from trie import HexaryTrie
 from trie.exceptions import MissingTrieNode
@@ -17,6 +18,19 @@ from trie.exceptions import MissingTrieNode
 from .core import HarnessError, Violation, unhx
 from .models.mpt import BLANK_ROOT, RefMPT
 from .simdb import InjectedStorageError, SimDB
+
+
+class ClientHandled(Exception):
+    """An exception the simulated client raised and is handling while it makes a call."""
+
+
+def in_handler(fn, *args):
+    """Run fn while an exception is being handled by the caller (as in: catch
+    MissingTrieNode, fetch the node, then write — all inside the except clause)."""
+    try:
+        raise ClientHandled()
+    except ClientHandled:
+        return fn(*args)
 
 
 class ClientAbort(Exception):
@@ -86,8 +100,12 @@ class HWorld:
         self.db = SimDB()
         self.prune = bool(cfg.get("prune"))
         n_handles = 1 if self.prune else int(cfg.get("handles", 1))
+        # a pruning handle is given a reference-count table the caller keeps: the trie
+        # must keep *that object* up to date (the caller persists it and hands it to the
+        # handle it re-opens after a restart)
+        self.caller_rc = defaultdict(int) if self.prune else None
         self.handles = [
-            Handle(HexaryTrie(self.db, prune=self.prune), self.prune, f"h{i}")
+            Handle(HexaryTrie(self.db, prune=self.prune, ref_count=self.caller_rc), self.prune, f"h{i}")
             for i in range(n_handles)
         ]
         self.ev = 0
@@ -134,7 +152,11 @@ class HWorld:
         if fn is None:
             raise HarnessError(f"unknown command {cmd!r}")
         h = self.handles[cmd.get("h", 0) % len(self.handles)]
-        outcome = fn(h, cmd)
+        if cmd.get("hdl"):
+            outcome = in_handler(fn, h, cmd)
+            self.st.probe("call-inside-active-except-handler")
+        else:
+            outcome = fn(h, cmd)
         st = self.st
         st.rec(self.ev, cmd["op"], outcome, h.trie.root_hash, len(self.db.raw()), self.fired)
         st.sched_rec(h.name, cmd["op"], cmd.get("on"), outcome, self.fired)
@@ -378,6 +400,15 @@ class HWorld:
     def after_abort(self, h, cmd, outcome, exc=None):
         pass
 
+    def op_bcopy(self, h, cmd):
+        """The client looks at the batch's pending view (batch.db.copy()) while the block
+        is open; the monitors on the underlying store judge what that does."""
+        if h.bgen is None:
+            return "skip"
+        status, res = self.call(h.btrie.db.copy)
+        self.st.probe("batch-view-copied")
+        return status
+
     # -- reads ----------------------------------------------------------------
     def op_get(self, h, cmd):
         on = cmd.get("on", "live")
@@ -452,11 +483,16 @@ class HWorld:
         through the public constructor from the durable (db, root)."""
         if h.bgen is not None:
             return "skip"
-        root = h.trie.root_hash
-        if h.prune:
+        root = bytes(bytearray(h.trie.root_hash))  # an equal but distinct object, as after persisting it
+        if h.prune and cmd.get("held"):
+            # restart with the table the caller handed in at the start and kept
+            h.trie = HexaryTrie(self.db, root, prune=True, ref_count=self.caller_rc)
+            self.st.fault("restart-caller-held-counts")
+        elif h.prune:
             status, rc = self.call(h.trie.regenerate_ref_count)
             if status == "exc":
                 return "exc:" + type(rc).__name__
+            self.caller_rc = rc
             h.trie = HexaryTrie(self.db, root, prune=True, ref_count=rc)
             self.st.fault("restart-regenerated-counts")
         else:
